@@ -16,6 +16,10 @@ def showList (xs : List Nat) : String := if xs.isEmpty then "-" else ",".interca
 
 def bitLen (z : Nat) : Nat := if z = 0 then 0 else z.log2 + 1
 
+/-- the vector routines are documented to panic when the operand lengths differ (every code path) -/
+def lenGuard (a : List String) (r : String) : String :=
+  if (parseList (a[0]?.getD "-")).length = (parseList (a[1]?.getD "-")).length then r else "panic"
+
 def handleOp (p : Params) (op : String) (a : List String) : String :=
   let x := (a[0]?.map parseHexD).getD 0
   let y := (a[1]?.map parseHexD).getD 0
@@ -50,9 +54,9 @@ def handleOp (p : Params) (op : String) (a : List String) : String :=
   | "bitlen" => toHex (bitLen x)
   | "one" => toHex (one p)
   | "batchinv" => showList (batchInv p (parseList (a[0]?.getD "-")))
-  | "vadd" => showList (vecAdd p (parseList (a[0]?.getD "-")) (parseList (a[1]?.getD "-")))
-  | "vsub" => showList (vecSub p (parseList (a[0]?.getD "-")) (parseList (a[1]?.getD "-")))
-  | "vmul" => showList (vecMul p (parseList (a[0]?.getD "-")) (parseList (a[1]?.getD "-")))
+  | "vadd" => lenGuard a (showList (vecAdd p (parseList (a[0]?.getD "-")) (parseList (a[1]?.getD "-"))))
+  | "vsub" => lenGuard a (showList (vecSub p (parseList (a[0]?.getD "-")) (parseList (a[1]?.getD "-"))))
+  | "vmul" => lenGuard a (showList (vecMul p (parseList (a[0]?.getD "-")) (parseList (a[1]?.getD "-"))))
   | "valign" =>
     let va := parseList (a[2]?.getD "-"); let vb := parseList (a[3]?.getD "-")
     showList (match a[1]?.getD "" with
@@ -61,7 +65,7 @@ def handleOp (p : Params) (op : String) (a : List String) : String :=
       | _ => vecMul p va vb)
   | "vscalarmul" => showList (vecScalarMul p (parseList (a[0]?.getD "-")) y)
   | "vsum" => toHex (vecSum p (parseList (a[0]?.getD "-")))
-  | "vinner" => toHex (vecInner p (parseList (a[0]?.getD "-")) (parseList (a[1]?.getD "-")))
+  | "vinner" => lenGuard a <| toHex (vecInner p (parseList (a[0]?.getD "-")) (parseList (a[1]?.getD "-")))
   | _ => "bad-op"
 
 def handle (args : List String) : String :=
